@@ -51,6 +51,7 @@ func c11Map(c *Ctx, kvs []KV) {
 			return ERR()
 		}
 		out = m.Data()
+		c.Hold("GoMapToMapping -> Data()", args[:min(len(args), 8)], out)
 		return OK(out)
 	})
 	if !inLimits {
